@@ -15,13 +15,13 @@ ASSUMPTIONS = ['text collation/case, number-vs-text, date-vs-number and boolean-
 DT = datetime.datetime
 NUMS = [-10, -2, -1, 0, 1, 2, 9, 10, 0.5, 1.2, 1.7, -0.5, -1.5, 2.5, 0.1 + 0.2, 0.3, 1e-7, 1e15 + 0.5, 3.999999, 4,
         1234567.125, 1234567.25, 1.000000000000001, 0.1234567890123456, 0.1234567890123457, -3, -2.5]
-TEXTS = ['', 'a', 'b', 'B', 'ab', '10', '9', '1.5', ' ']
+TEXTS = ['', 'a', 'b', 'B', 'ab', '10', '9', '1.5', ' ', '-1', '0', '-0.5']      # numeric-looking texts of every sign
 DATES = [DT(2019, 12, 31), datetime.date(2020, 1, 1), DT(2020, 1, 1), DT(2020, 1, 1, 12, 0), DT(2024, 2, 29),
          datetime.date(2024, 2, 29)]
 BOOLS = [True, False]
 BLANK = None
 ALPHABET = NUMS + TEXTS + DATES + [BLANK] + BOOLS
-EXTRA = [' a', 'a ', 'A', 'aB', 'z', '-1', '0', '-0.5', 2 ** 53 + 2, -(2 ** 53) - 2, 1e-300, 123456789.123456, 123456789.123457, -0.3, -(0.1 + 0.2),
+EXTRA = [' a', 'a ', 'A', 'aB', 'z', '0.0', '-5', 2 ** 53 + 2, -(2 ** 53) - 2, 1e-300, 123456789.123456, 123456789.123457, -0.3, -(0.1 + 0.2),
          DT(2020, 1, 1, 0, 0, 1), DT(1900, 1, 1), DT(9999, 12, 31)]
 QUICK_NUMS = [-10, -1, 0, 1, 2, 10, 0.5, 1.2, 1.7, -0.5, -1.5, 0.1 + 0.2, 0.3, 1e15 + 0.5]
 QUICK = QUICK_NUMS + ['', 'a', 'B', '10', '9'] + DATES[:4] + [BLANK] + BOOLS
